@@ -49,6 +49,54 @@ def run(ctx):
     _envelopes(ctx)
     _every_piece(ctx)
     _regex_termination(ctx)
+    _error_stops(ctx)
+
+
+def _error_stops(ctx):
+    """(D3) pyparsing's `-` operator (And with an error stop) turns a failure after its left operand into
+    ParseSyntaxException, a ParseFatalException that is NOT a ParseException.  parse_scalar converts ParseException
+    only; a grammar element built with `-` that is reachable from the scalar alternations lets another exception
+    type out of parse_scalar."""
+    m = ctx.model
+    try:
+        g = G.grammar_of(m, 'zincparser')
+        ps = m.func('zincparser', 'parse_scalar')
+    except (AnalysisError, Unsupported) as e:
+        ctx.error('C09.D3', str(e))
+        return
+    handled = set()
+    for tr in [x for x in ast.walk(ps) if isinstance(x, ast.Try)]:
+        for h in tr.handlers:
+            last = h.body[-1] if h.body else None
+            converts = isinstance(last, ast.Raise) and last.exc is not None and 'ZincParseException' in norm(last.exc)
+            if converts:
+                handled.add(norm(h.type).split('.')[-1] if h.type is not None else '*')
+    covers_fatal = bool(handled & {'*', 'Exception', 'BaseException', 'ParseBaseException', 'ParseFatalException',
+                                   'ParseSyntaxException'})
+    n = 0
+    seen = set()
+    for ver in ('2.0', '3.0'):
+        try:
+            root = g.get('hs_scalar_%s' % ver.replace('.', '_'))
+        except AnalysisError as e:
+            ctx.error('C09.D3', str(e))
+            continue
+        for node in G.walk(root):
+            if node.id in seen:
+                continue
+            seen.add(node.id)
+            n += 1
+            if node.data.get('error_stop') and not covers_fatal:
+                ctx.violation('C09.D3', '%s::%s' % (FP, node.label()), 'And with error stop (operator -)',
+                              "parse_scalar('<<', version='3.0') (a nested grid that is opened and then cut off): the element "
+                              "`%s` is built with pyparsing's `-`, so the failure is a ParseSyntaxException; parse_scalar "
+                              "converts only %s and the exception escapes -- it is not a ValueError"
+                              % (node.label(), sorted(handled) or 'nothing'),
+                              'a grammar element reachable from the scalar alternation uses an error stop, but parse_scalar does '
+                              'not convert ParseFatalException', file=FP, line=node.lineno, engine='E8')
+                return
+    ctx.ob('C09.D3', 'no element reachable from the scalar alternations uses an error stop (`-`)%s (%d nodes)'
+           % (' / parse_scalar converts fatal parse errors too' if covers_fatal else '', n), True, FP)
 
 
 def _regex_termination(ctx):
@@ -457,3 +505,28 @@ def _envelopes(ctx):
             ctx.ob('C09.D4', 'VERSION_RE only accepts texts starting with ver:"', True, FP)
     except (Unsupported, AttributeError) as e:
         ctx.error('C09.D4', str(e))
+    # the version text itself: Version() must refuse what is not <digit>[digits and dots]<rest not starting with a digit>
+    FV = 'hszinc/version.py'
+    try:
+        vv = m.const('version', 'VERSION_RE')
+        pv = L.PyRegex(vv.pattern, vv.flags)
+        env = L.rcat(L.rset(L.ASCII_DIGIT) if hasattr(L, 'ASCII_DIGIT') else L.rset(L.iv((48, 57))), L.rany_star())
+        digitish = L.rcat(L.rset(L.category('digit')), L.rany_star())
+        w = L.find_not_included(pv.match_lang(), digitish)
+        init = m.func('version', 'Version.__init__')
+        uses = [c for c in ast.walk(init) if isinstance(c, ast.Call) and norm(c.func) == 'VERSION_RE.match']
+        refuses = any(isinstance(x, ast.If) and 'is None' in norm(x.test) and x.body and isinstance(x.body[0], ast.Raise)
+                      and norm(x.body[0].exc).startswith('ValueError') for x in ast.walk(init))
+        if not uses or not refuses:
+            ctx.error('C09.D4', 'Version.__init__: VERSION_RE.match / refusal with ValueError not recognised')
+        elif w:
+            ctx.violation('C09.D4', '%s::VERSION_RE' % FV, vv.pattern,
+                          'the document \'ver:"%s"\\na\\n1\\n\' (a header whose version does not start with a digit) is parsed: '
+                          'Version(%r) is accepted, its empty groups count as 0 and the nearest grammar is used, instead of the '
+                          'malformed version header being rejected' % (_zinc.show(w[0]), _zinc.show(w[0])),
+                          'version.VERSION_RE accepts version texts that do not start with a digit', file=FV, engine='E3')
+        else:
+            ctx.ob('C09.D4', 'Version() accepts only texts starting with a digit (others raise ValueError -> ZincParseException)',
+                   True, FV)
+    except (Unsupported, AttributeError, AnalysisError) as e:
+        ctx.error('C09.D4', 'version.VERSION_RE: %s' % e)
